@@ -5,10 +5,10 @@ props=[json.loads(l) for l in open('/verif/properties.jsonl')]
 TV={'C01','C04','C11'}
 built={
  'C01':"optimised vs unoptimised compilation of a program family run symbolically + fold kernels",
- 'C04':"symbolic encode/decode round trips of every object kind and of compiled programs",
- 'C11':"real programs down-converted to v1 by a reference and decoded by the real v1 path, compared instruction for instruction; symbolic kernel",
+ 'C04':"symbolic encode/decode round trips of every object kind (map keys in every order) and of compiled programs incl. the shared program corpus",
+ 'C11':"real programs down-converted to v1 by a reference and decoded by the real v1 path, compared instruction for instruction (incl. the shared program corpus); symbolic kernel through the public v1 path with neighbouring functions",
  'C15':"operator laws and documented operator table over the complete scalar domain",
- 'C18':"decoders executed on symbolic buffers, framed containers and corruptions of valid encodings; panic and allocation monitors",
+ 'C18':"decoders executed on symbolic buffers, framed containers and corruptions of valid encodings, nested size fields as symbolic 64-bit varints; panic and allocation monitors",
 }
 NA={}
 import os
